@@ -258,6 +258,18 @@ def _condition(spec_cond, data, env):
             verdicts = [_sat(data[c][i], [k, p], env, inf_nan) for c, k, p in conds]
             return False if any(v is False for v in verdicts) else None if any(v is None for v in verdicts) else True
         caller.values = values
+        if form == 'split' and len(conds) >= 2:
+            # the caller's own condition dict, used for several calls in a row (first with keyword conditions, then on its own)
+            def reuse(table, method):
+                shared = [dict(p) for p in pos]
+                first = getattr(table, method)(*shared, **dict(kw))
+                return first, getattr(table, method)(*shared), shared
+
+            def selected_dict_only(i, inf_nan=None):
+                return _sat(data[conds[0][0]][i], conds[0][1:], env, inf_nan)
+            caller.reuse = reuse
+            caller.selected_dict_only = selected_dict_only
+            caller.dict_desc = _T('(%s)' % short(pos[0], 120))
         return desc, caller, selected
     else:
         args = spec_cond['args']
@@ -349,6 +361,22 @@ def run_partition(spec):
             _check_weak_partition(tdesc, desc, all_rows, status, got_inc, got_exc)
         check(len(got_inc) + len(got_exc) == n, 'inc%s and exc%s hold %s + %s rows of a table of %s', desc, desc, len(got_inc), len(got_exc), n)
 
+    # the caller's condition dict is the caller's: used again on its own after a call that also had keyword conditions, it means what it says
+    reused = getattr(caller, 'reuse', None)
+    if reused is not None and not undecided:
+        st2 = [caller.selected_dict_only(i) for i in range(n)]
+        if not any(v is None for v in st2):
+            for method, keep in (('inc', True), ('exc', False)):
+                w = 'key = %s; dictable(%s).%s(key, %s)' % (caller.dict_desc, tdesc, method, ', '.join('%s = ..' % c for c, v in caller.values[1:]))
+                first, second, shared = call(w, reused, d, method)
+                exp1 = exp_inc if keep else exp_exc
+                check(list(_table_rows(_T(w), first, cols)) == exp1, '%s returned %s, expected rows %s', _T(w), first, sel if keep else unsel)
+                w2 = _T(w + '; then %s(key)' % method)
+                exp2 = [all_rows[i] for i in range(n) if bool(st2[i]) == keep]
+                got2 = _table_rows(w2, second, cols)
+                check(list(got2) == exp2, '%s returned %s; the rows %s the condition %s alone are rows %s (the condition dict is now %s)', w2, got2,
+                      'satisfying' if keep else 'NOT satisfying', caller.dict_desc, [i for i in range(n) if bool(st2[i]) == keep], short(shared, 120))
+
     # idempotent: the same condition applied to the result selects all of it
     again = call('dictable(%s).inc%s.inc%s' % (tdesc, desc, desc), caller, inc, 'inc')
     got_again = _table_rows(_T('inc%s applied twice to %s' % (desc, tdesc)), again, cols)
@@ -386,6 +414,10 @@ def run_partition(spec):
                     cls.append('equal_not_identical')
                 if any(y is None or (not y and not _is_nan(y)) for y in vs) or (k == 'list' and not vs):
                     cls.append('falsy_condition_value')
+        if reused is not None and not undecided:
+            cls.append('condition_dict_reused_across_calls')
+            if [i for i in range(n) if caller.selected_dict_only(i)] != sel:
+                cls.append('condition_dict_reused:keywords_mattered')
         if len(conds) >= 2:
             per_row = [sum(1 for c, k, p in conds if _sat(data[c][i], [k, p], env)) for i in range(n)]
             if any(0 < m < len(conds) for m in per_row):
@@ -771,12 +803,12 @@ SUBS = [
              'short column patterns repeated), column names nested in one another, +-inf cells in about 17% of the tables (a row whose infinite cell meets a NaN condition must only be in exactly one of inc / exc); a conjunction of 0-3 column conditions '
              '(value, list of admissible values, None, NaN, compiled regex) passed as keywords, one dict, dict + keywords, or several dicts. '
              'oracle: plain list-of-records filter; inc = satisfying rows in order, exc = the others in order, both with all columns, lengths add up, '
-             'inc() = identity, inc twice = once, table untouched. non-trivial = at least one row and (both parts non-empty, or a None/NaN/regex condition, '
+             'inc() = identity, inc twice = once, table untouched; for dict + keywords the caller\'s dict is then passed again on its own (same object) and must select by its own content. non-trivial = at least one row and (both parts non-empty, or a None/NaN/regex condition, '
              'or the condition matches all / no rows); distinct = distinct spec',
         floor=0.5,
         class_floors={'both_nonempty': 0.15, 'all': 0.03, 'nothing': 0.08, 'cond=nan': 0.05, 'cond=none': 0.05, 'cond=regex': 0.05, 'cond=list': 0.1,
                       'cond=val': 0.1, 'nconds=2': 0.1, 'form=none': 0.02, 'form=emptydict': 0.01, 'interleaved': 0.05, 'n=0': 0.01,
-                      'nan_cond_on_nan_column': 0.02,
+                      'nan_cond_on_nan_column': 0.02, 'condition_dict_reused_across_calls': 0.05, 'condition_dict_reused:keywords_mattered': 0.02,
                       # the bug classes of the brief's appendix
                       'large': 0.04, 'duplicate_rows': 0.25, 'dup_in_list': 0.015, 'list_len=64+': 0.008, 'equal_not_identical': 0.03,
                       'columns_not_alphabetical': 0.2, 'conds_not_in_column_order': 0.03, 'noop_selection': 0.3, 'falsy_condition_value': 0.08,
